@@ -22,7 +22,7 @@ EXPLANATION = ('LocalInference.estimate per (measurement set, oracle, iterations
 TOTALS = [1.0, 100.0, 1e4]
 ITERS = [1, 10, 60, 200]
 ORACLES = ['convex', 'approx', 'pairwise']
-KINDS = ['chain', 'star', 'loop', 'dense', 'arbitrary', 'nested', 'rip', 'fgtree', 'disjoint', 'disjoint', 'disjoint', 'sameset']
+KINDS = ['chain', 'star', 'loop', 'dense', 'arbitrary', 'nested', 'rip', 'fgtree', 'disjoint', 'disjoint', 'disjoint', 'sameset', 'deep']
 
 
 def gen_measurements(r, dom, cl, total, sigma, seed):
@@ -281,7 +281,7 @@ def check_control(res, drv, out, iters, viol_cap, canon):
         res.count('traces with extra feasibility calls')
 
 
-def run_local(dom, meas, total, oracle, iters, record=False, control=True):
+def run_local(dom, meas, total, oracle, iters, record=False, control=True, prior=None):
     from mbi import LocalInference
     d = rggen.mk_domain(dom)
     eng = LocalInference(d, marginal_oracle=oracle, iters=iters)
@@ -304,6 +304,12 @@ def run_local(dom, meas, total, oracle, iters, record=False, control=True):
     t0 = time.time()
     try:
         with np.errstate(all='ignore'):
+            for pm, pt in (prior or []):
+                eng.estimate(pm, pt)          # earlier calls on the same estimator object
+            if ctl:
+                ctl.attempts.clear()
+            if rec:
+                rec.segments.clear(); rec.last = None
             model = eng.estimate(meas, total)
     except Exception as e:          # recorded, never hidden
         out['exc'] = (type(e).__name__, str(e)[:200])
@@ -367,13 +373,13 @@ def check_run(res, canon, dom, cl, meas, total, oracle, iters, out, viol_cap):
             mm = rggen.max_abs_message(model)
             viol_cap('failing-input', f'oracle {oracle!r}, iters {iters}, total {T}: {bad} (cliques {cl}); largest |message| {mm:.3e}',
                      dict(rp, observed=[float(v) for v in f.values.flatten()]),
-                     f'local:{oracle}:invalid-table' + (':diverged-messages' if not (mm < rggen.DIVERGED) else ''))
+                     f'local:{oracle}:invalid-table' + (':diverged-messages' if rggen.explained_by_message_growth({proj: (list(proj), [float(v) for v in f.values.flatten()])}, T, mm) else ''))
             return None
     bad = rggen.validity(rggen.table(model.marginals), T, 1e-9)
     if bad:
         mm = rggen.max_abs_message(model)
         viol_cap('failing-input', f'oracle {oracle!r}, iters {iters}, total {T}: model.marginals: {bad}; largest |message| {mm:.3e}', rp,
-                 f'local:{oracle}:invalid-table' + (':diverged-messages' if not (mm < rggen.DIVERGED) else ''))
+                 f'local:{oracle}:invalid-table' + (':diverged-messages' if rggen.explained_by_message_growth(rggen.table(model.marginals), T, mm) else ''))
         return None
     # fit no worse than the uniform start
     from mbi import CliqueVector
@@ -381,9 +387,26 @@ def check_run(res, canon, dom, cl, meas, total, oracle, iters, out, viol_cap):
     L = objective(d, model.cliques, model.marginals, meas)
     L0 = objective(d, model.cliques, uni, meas)
     if L > L0 * (1 + 1e-9) + 1e-12:
+        # which part of mirror_descent_auto let it happen (the recorded findings are keyed by this cause, read off the recorded trace)
+        cause, why = '', ''
+        ctl = out.get('ctl')
+        att = ctl.attempts[-1] if ctl and ctl.attempts else None
+        if iters == 1:
+            cause, why = ':single-step', '; with iters=1 the single step of size initial_alpha=10 is never tested'
+        elif att and len(att['mu']) > iters and len(att['loss']) == iters + 1:
+            L_loop_end = objective(d, model.cliques, att['mu'][iters], meas)
+            late = [t for t in range(51, iters) if att['loss'][t + 1] > att['loss'][t]]
+            post = len(att['mu']) - 1 - iters
+            if post > 0 and L_loop_end <= L0 * (1 + 1e-9) + 1e-12:
+                cause = ':post-phase'
+                why = (f'; the descent itself ended at loss {L_loop_end!r}, the {post} extra oracle calls of the feasibility phase (no gradient step, same '
+                       f'potentials) then moved the tables to a much worse fit')
+            elif late:
+                cause, why = ':late-increase', f'; the loss rose at iteration(s) {late[:5]} > 50, where the loop only halves the step and continues'
+            elif att['loss'][-1] <= L0 * (1 + 1e-9) + 1e-12 and post == 0:
+                cause, why = ':last-step', f'; the last loss the loop looked at was {att["loss"][-1]!r}; the step taken from there is never evaluated'
         viol_cap('failing-input', f'oracle {oracle!r}, iters {iters}, total {T}: loss at the returned tables {L!r} exceeds the loss at the uniform start {L0!r} '
-                 f'(cliques {cl})' + ('; with iters=1 the single step of size initial_alpha=10 is never tested' if iters == 1 else ''),
-                 dict(rp, loss=L, uniform_loss=L0), 'local:worse-than-uniform:single-step' if iters == 1 else 'local:worse-than-uniform')
+                 f'(cliques {cl})' + why, dict(rp, loss=L, uniform_loss=L0), 'local:worse-than-uniform' + cause)
     # convex: overlapping tables agree up to the tolerance the estimator enforces (mean edge L1 < 1.0)
     if oracle == 'convex':
         pf = aligned_feasibility(model)
@@ -418,7 +441,19 @@ def exactness(res, canon, dom, cl, meas, total, results, viol_cap, fact_iters):
         res.extra.setdefault('suboptimality', []).append([oracle, iters, sub_local, sub_exact])
         if L < Lstar - 1e-9 * (abs(Lstar) + 1):
             viol_cap('failing-input', f'oracle {oracle!r}: loss {L!r} below the closed-form optimum {Lstar!r} (tables cannot be valid)', {'request': canon}, 'local:below-optimum')
-        if iters >= 200 and sub_local > max(1e-3, 10 * sub_exact):
+        thr = max(1e-3, 10 * sub_exact)
+        if iters >= 200 and sub_local > thr:
+            # "attains the same optimum" is a statement about the limit: escalate the iteration budget before calling it a failure
+            for more in (1000, 5000):
+                o2 = run_local(dom, meas, T, oracle, more, control=False)
+                res.count(f'exactness: budget escalated to {more}')
+                if o2['exc']:
+                    break
+                L = objective(o2['domain'], o2['model'].cliques, o2['model'].marginals, meas)
+                sub_local, iters = (L - Lstar) / scale, more
+                if sub_local <= thr:
+                    break
+        if iters >= 200 and sub_local > thr:
             viol_cap('failing-input',
                      f'convergence test: disjoint cliques {cl}, oracle {oracle!r}, iters {iters}, total {T}: loss {L!r}; exact estimation (FactoredInference MD, '
                      f'{fact_iters} iters) {Lf!r}; closed-form optimum {Lstar!r}; uniform start {L0!r}; relative suboptimality {sub_local:.3e} (exact estimation {sub_exact:.3e})',
@@ -468,9 +503,12 @@ class Cap:
 
 def one_case(res, drv, r, tier, viol_cap, idx, budget_left):
     kind = r.choice(KINDS)
-    n = r.randint(2, 5)
-    dom = rggen.gen_domain(r, n, 120 if tier == 'quick' else 400)
-    cl = rggen.gen_cliques(r, kind, [a for a, _ in dom])
+    if kind == 'deep':
+        dom, cl, _ = rggen.gen_case(r, kinds=['deep'])
+    else:
+        n = r.randint(2, 5)
+        dom = rggen.gen_domain(r, n, 120 if tier == 'quick' else 400)
+        cl = rggen.gen_cliques(r, kind, [a for a, _ in dom])
     total = r.choice(TOTALS + [None]) if not disjoint(cl) else r.choice(TOTALS)
     scale = total if total is not None else 50.0
     sigma = r.choice([0.01, 0.05]) * scale
@@ -495,6 +533,32 @@ def one_case(res, drv, r, tier, viol_cap, idx, budget_left):
     if disjoint(cl) and results and total is not None:
         exactness(res, {'dom': dom, 'cliques': cl, 'total': total, 'sigma': sigma, 'mseed': mseed, 'oracle': 'all', 'iters': its}, dom, cl, meas, total, results,
                   viol_cap, 300 if tier == 'quick' else 1000)
+    if idx % 2 == 1:
+        history_free(res, dom, cl, meas, total, sigma, mseed, its[0], r.choice(ORACLES), viol_cap)
+
+
+def history_free(res, dom, cl, meas, total, sigma, mseed, iters, oracle, viol_cap):
+    """the same estimate call after an earlier call (other answers, some measurements dropped) on the same estimator object: LocalInference keeps no
+    warm start, so the result must be the one a fresh estimator returns"""
+    prior_meas = gen_measurements(None, dom, cl, total, sigma * 3, mseed + 1)
+    if len(prior_meas) > 1 and mseed % 2 == 0:
+        prior_meas = prior_meas[:-1]
+    canon = {'dom': dom, 'cliques': cl, 'total': total, 'sigma': sigma, 'mseed': mseed, 'oracle': oracle, 'iters': iters, 'history': 'second-call'}
+    a = run_local(dom, meas, total, oracle, iters, control=False)
+    b = run_local(dom, meas, total, oracle, iters, control=False, prior=[(prior_meas, total)])
+    res.case(canon, True)
+    res.count('history: second call on the same estimator vs a fresh one')
+    if a['exc'] or b['exc']:
+        if bool(a['exc']) != bool(b['exc']):
+            viol_cap('failing-input', f'oracle {oracle!r}: the call {"raises " + str(b["exc"]) if b["exc"] else "succeeds"} after an earlier call on the same estimator '
+                     f'but {"raises " + str(a["exc"]) if a["exc"] else "succeeds"} on a fresh one', {'request': canon}, 'local:history:exception')
+        return
+    ta, tb = rggen.table(a['model'].marginals), rggen.table(b['model'].marginals)
+    T = float(a['model'].total)
+    d, w = rggen.compare_tables(ta, tb, T)
+    if d or float(b['model'].total) != T:
+        viol_cap('failing-input', f'oracle {oracle!r}, iters {iters}: the tables returned after an earlier estimate call on the same LocalInference object differ from '
+                 f'those of a fresh estimator given the same arguments: {d}', {'request': canon}, 'local:history:differs')
 
 
 # found by a thorough run (replayed in the thorough tier only: the 1000 extra oracle calls take ~15 s):
@@ -536,6 +600,9 @@ def replay(res, drv, rp):
     total = None if total in (None, 'None') else float(total)
     meas = gen_measurements(None, dom, cl, total, float(sigma), int(mseed))
     viol_cap = Cap(res)
+    if q.get('history') == 'second-call':
+        history_free(res, dom, cl, meas, total, float(sigma), int(mseed), int(q['iters']), q['oracle'], viol_cap)
+        return
     oracles = ORACLES if q['oracle'] == 'all' else [q['oracle']]
     its = q['iters'] if isinstance(q['iters'], list) else [q['iters']]
     results = {}
